@@ -101,3 +101,53 @@ V("c06-s-cusum-absflip", "C06", CUS, "cusum = np.abs(before_weight * before_sum 
 V("c06-s-l2s", "C06", L2S, "    saving = (sums[ends] - sums[starts]) ** 2 / n", "    seg = sums[ends] - sums[starts]\n    saving = seg * seg / n", "silent", "temporary")
 V("c06-s-las-idx", "C06", ASF, "            before_data = X[before_inner_interval[0] : before_inner_interval[1]]", "            before_data = X[interval[0] : interval[1]]", "silent", "direct row access")
 V("c06-s-saving", "C06", ASF, "        savings = baseline_costs - optimised_costs\n        return savings", "        return -(optimised_costs - baseline_costs)", "silent", "negated difference")
+
+# ------------------------------------------------------------------------ C15
+MVC = "skchange/anomaly_detectors/mvcapa.py"
+CAP = "skchange/anomaly_detectors/capa.py"
+PEL = "skchange/change_detectors/pelt.py"
+SBS = "skchange/change_detectors/seeded_binseg.py"
+CBS = "skchange/anomaly_detectors/circular_binseg.py"
+MW = "skchange/change_detectors/moving_window.py"
+
+V("c15-f06-revert", "C15", MVC, "dense_alpha, dense_betas = dense_mvcapa_penalty(n, p, n_params_per_variable, scale)", "dense_alpha, dense_betas = dense_mvcapa_penalty(n, p * n_params_per_variable, scale)\n    dense_betas = np.zeros(p)", "fire", "F-06 reverted: scale bound to n_params_per_variable", ["combined"])
+V("c15-pelt-p", "C15", PEL, "        return 2 * p * np.log(n)", "        return 2 * np.log(n)", "fire", "PELT penalty without p", ["PELT"])
+V("c15-pelt-swap", "C15", PEL, "return self.penalty_scale * self.get_default_penalty(n, p)", "return self.penalty_scale * self.get_default_penalty(p, n)", "fire", "n and p swapped", ["PELT"])
+V("c15-pelt-shape", "C15", PEL, "            n = X.shape[0]\n            p = X.shape[1]\n            return self.penalty_scale", "            n = X.shape[0]\n            p = X.shape[0]\n            return self.penalty_scale", "fire", "p read from the row count", ["PELT"])
+V("c15-pelt-add", "C15", PEL, "return self.penalty_scale * self.get_default_penalty(n, p)", "return self.penalty_scale + self.get_default_penalty(n, p)", "fire", "scale added instead of multiplied", ["PELT"])
+V("c15-sbs-sqrt", "C15", SBS, "        return 2 * p * np.sqrt(np.log(n))", "        return 2 * p * np.log(n)", "fire", "sqrt dropped", ["SeededBinarySegmentation"])
+V("c15-sbs-level", "C15", SBS, "        return np.quantile(scores, 1 - self.level)", "        return np.quantile(scores, self.level)", "fire", "quantile level inverted", ["level"])
+V("c15-sbs-tune-out", "C15", SBS, "        _, scores, _, _, _ = run_seeded_binseg(", "        _, _, scores, _, _ = run_seeded_binseg(", "fire", "quantile over the maximisers", ["score-output"])
+V("c15-sbs-tune-thr", "C15", SBS, "            self._change_score,\n            np.inf,\n", "            self._change_score,\n            0.0,\n", "fire", "tuning with threshold 0", ["infinite"])
+V("c15-sbs-tune-m", "C15", SBS, "            np.inf,\n            self.min_segment_length,\n            self.max_interval_length,", "            np.inf,\n            self.min_segment_length,\n            2 * self.min_segment_length,", "fire", "tuning with another max_interval_length", ["same-configuration"])
+V("c15-cbs-own", "C15", CBS, "            return self.threshold_scale * self.get_default_threshold(\n                X.shape[0], X.shape[1], self.max_interval_length\n            )", "            return self.threshold_scale * self.get_default_threshold(\n                X.shape[0], X.shape[1], self.min_segment_length\n            )", "fire", "default threshold bound to another hyper-parameter", ["CircularBinarySegmentation"])
+V("c15-cbs-noscale", "C15", CBS, "            return self.threshold_scale * self.get_default_threshold(\n                X.shape[0]", "            return self.get_default_threshold(\n                X.shape[0]", "fire", "scale dropped", ["CircularBinarySegmentation"])
+V("c15-mw-level", "C15", MW, "                n, p, self.bandwidth, self.level\n", "                n, p, self.bandwidth\n", "fire", "level not forwarded to the default threshold", ["MovingWindow"])
+V("c15-mw-tune", "C15", MW, "        tuned_threshold = np.quantile(scores, 1 - self.level)", "        tuned_threshold = np.quantile(scores, 1 - self.level / 2)", "fire", "tuned quantile level", ["level"])
+V("c15-mw-tune-bw", "C15", MW, "        scores = moving_window_transform(\n            X.values,\n            self._change_score,\n            self.bandwidth,\n        )\n        tuned_threshold", "        scores = moving_window_transform(\n            X.values,\n            self._change_score,\n            2 * self.bandwidth,\n        )\n        tuned_threshold", "fire", "tuning with twice the bandwidth", ["same-configuration"])
+V("c15-capa-k", "C15", CAP, "        collective_penalty = capa_penalty(n, n_params, self.collective_penalty_scale)", "        collective_penalty = capa_penalty(n, p * n_params, self.collective_penalty_scale)", "fire", "k multiplied by p twice", ["CAPA"])
+V("c15-capa-args", "C15", CAP, "        collective_penalty = capa_penalty(n, n_params, self.collective_penalty_scale)", "        collective_penalty = capa_penalty(n_params, n, self.collective_penalty_scale)", "fire", "n and k swapped", ["CAPA"])
+V("c15-capa-scale", "C15", CAP, "        collective_penalty = capa_penalty(n, n_params, self.collective_penalty_scale)", "        collective_penalty = capa_penalty(n, n_params, self.point_penalty_scale)", "fire", "wrong scale", ["CAPA"])
+V("c15-capa-formula", "C15", MVC, "penalty = scale * (n_params + 2 * np.sqrt(n_params * psi) + 2 * psi)", "penalty = scale * (n_params + 2 * np.sqrt(n_params * psi)) + 2 * psi", "fire", "2 log n outside the scale", ["capa_penalty"])
+V("c15-capa-sqrt", "C15", MVC, "penalty = scale * (n_params + 2 * np.sqrt(n_params * psi) + 2 * psi)", "penalty = scale * (n_params + 2 * np.sqrt(n_params) * psi + 2 * psi)", "fire", "log n outside the sqrt", ["capa_penalty"])
+V("c15-dense-k", "C15", MVC, "    return capa_penalty(n, p * n_params_per_variable, scale), np.zeros(p)", "    return capa_penalty(n, n_params_per_variable, scale), np.zeros(p)", "fire", "dense penalty for k instead of p*k parameters", ["dense"])
+V("c15-dense-betas", "C15", MVC, "    return capa_penalty(n, p * n_params_per_variable, scale), np.zeros(p)", "    return capa_penalty(n, p * n_params_per_variable, scale), np.ones(p)", "fire", "dense betas not zero", ["dense"])
+V("c15-sparse-beta", "C15", MVC, "    sparse_penalty = 2 * scale * np.log(n_params_per_variable * p)", "    sparse_penalty = 2 * scale * np.log(n_params_per_variable + p)", "fire", "sparse beta log(k+p)", ["sparse"])
+V("c15-sparse-alpha", "C15", MVC, "    dense_penalty = 2 * scale * psi\n", "    dense_penalty = 2 * psi\n", "fire", "sparse alpha not scaled", ["sparse"])
+V("c15-sparse-len", "C15", MVC, "    return dense_penalty, np.full(p, sparse_penalty)", "    return dense_penalty, np.full(p - 1, sparse_penalty)", "fire", "sparse betas of length p-1", ["sparse"])
+V("c15-comb-min", "C15", MVC, "        dense_penalties, np.minimum(sparse_penalties, intermediate_penalties)", "        dense_penalties, np.maximum(sparse_penalties, intermediate_penalties)", "fire", "maximum instead of minimum", ["combined"])
+V("c15-comb-drop", "C15", MVC, "    pointwise_min_penalties[1:] = np.minimum(\n        dense_penalties, np.minimum(sparse_penalties, intermediate_penalties)\n    )", "    pointwise_min_penalties[1:] = np.minimum(sparse_penalties, intermediate_penalties)", "fire", "dense penalty left out of the minimum", ["combined"])
+V("c15-comb-sparse-scale", "C15", MVC, "    sparse_alpha, sparse_betas = sparse_mvcapa_penalty(\n        n, p, n_params_per_variable, scale\n    )", "    sparse_alpha, sparse_betas = sparse_mvcapa_penalty(\n        n, p, n_params_per_variable\n    )", "fire", "sparse family called with the default scale", ["combined"])
+V("c15-comb-cum", "C15", MVC, "    sparse_penalties = sparse_alpha + np.cumsum(sparse_betas)", "    sparse_penalties = sparse_alpha + sparse_betas", "fire", "sparse penalties not cumulated", ["combined"])
+V("c15-comb-layout", "C15", MVC, "    pointwise_min_penalties = np.zeros(p + 1)\n    pointwise_min_penalties[1:] = np.minimum(", "    pointwise_min_penalties = np.zeros(p)\n    pointwise_min_penalties[:] = np.minimum(", "fire", "first cumulative entry not zero", ["combined"])
+V("c15-inter-scale", "C15", MVC, "        return scale * (\n            2 * (psi + np.log(p))", "        return scale + (\n            2 * (psi + np.log(p))", "fire", "intermediate penalty not proportional to the scale", ["intermediate", "combined"])
+V("c15-pelt-tune", "C15", PEL, "        raise ValueError(\n            \"tuning of the penalty is not supported yet (`penalty_scale=None`).\"\n        )", "        return 0.0", "fire", "PELT tuning silently returns 0", ["PELT"])
+
+V("c15-s-pelt-form", "C15", PEL, "        return 2 * p * np.log(n)", "        return np.log(n) * p * 2.0", "silent", "reordered product")
+V("c15-s-sbs-form", "C15", SBS, "        return 2 * p * np.sqrt(np.log(n))", "        return 2 * p * np.log(n) ** 0.5", "silent", "power 0.5 instead of sqrt")
+V("c15-s-capa-form", "C15", MVC, "penalty = scale * (n_params + 2 * np.sqrt(n_params * psi) + 2 * psi)", "penalty = scale * n_params + 2 * scale * (np.sqrt(n_params) * np.sqrt(psi) + psi)", "silent", "distributed, sqrt split")
+V("c15-s-sparse-form", "C15", MVC, "    sparse_penalty = 2 * scale * np.log(n_params_per_variable * p)", "    sparse_penalty = 2 * scale * (np.log(n_params_per_variable) + np.log(p))", "silent", "log of product split")
+V("c15-s-comb-kw", "C15", MVC, "dense_alpha, dense_betas = dense_mvcapa_penalty(n, p, n_params_per_variable, scale)", "dense_alpha, dense_betas = dense_mvcapa_penalty(n, p, scale=scale, n_params_per_variable=n_params_per_variable)", "silent", "keyword binding")
+V("c15-s-comb-minorder", "C15", MVC, "        dense_penalties, np.minimum(sparse_penalties, intermediate_penalties)", "        np.minimum(intermediate_penalties, dense_penalties), sparse_penalties", "silent", "minimum re-associated")
+V("c15-s-mw-kw", "C15", MW, "                n, p, self.bandwidth, self.level\n", "                n, p, level=self.level, bandwidth=self.bandwidth\n", "silent", "keyword binding")
+V("c15-s-level", "C15", CBS, "        return np.quantile(scores, 1 - self.level)", "        q = 1.0 - self.level\n        return np.quantile(scores, q)", "silent", "temporary")
